@@ -23,6 +23,7 @@ type verifSide struct {
 	idx       bool
 	idxUnique bool
 	idxDesc   bool
+	idxPred   int // index attributes (group 5): 0 none, 1 b > 0, 2 b > 1
 	pk        bool
 	fk        bool
 	fkDelete  int // 0 "", 1 NO ACTION, 2 CASCADE
@@ -47,6 +48,13 @@ func verifSideOf(tag string, group int) verifSide {
 		s.chk = verifChoice(tag+"_chk", 2) == 1
 		s.chkExpr = "x"
 		s.strict = verifChoice(tag+"_strict", 2) == 1
+		return s
+	}
+	if group == 5 {
+		// index attributes: the index is present on both sides, its predicate varies
+		s.idx = true
+		s.idxUnique = verifBool(tag + "_idx_unique")
+		s.idxPred = verifChoice(tag+"_idx_pred", 3)
 		return s
 	}
 	if group == 4 {
@@ -133,6 +141,9 @@ func (s verifSide) table(sch *schema.Schema, ref *schema.Table, perm bool) *sche
 	if s.idx {
 		i := schema.NewIndex("i").SetUnique(s.idxUnique)
 		i.AddParts(&schema.IndexPart{C: b, Desc: s.idxDesc})
+		if s.idxPred != 0 {
+			i.AddAttrs(&IndexPredicate{P: []string{"", "b > 0", "b > 1"}[s.idxPred]})
+		}
 		t.AddIndexes(i)
 	}
 	if s.pk {
@@ -198,6 +209,9 @@ func verifExpected(f, t verifSide) []verifWant {
 		}
 		if f.idxDesc != t.idxDesc {
 			k |= schema.ChangeParts
+		}
+		if f.idxPred != t.idxPred {
+			k |= schema.ChangeAttr
 		}
 		if k != 0 {
 			w = append(w, verifWant{"modify-index", k})
@@ -355,8 +369,9 @@ func verifC02(group int, withSkip bool) {
 	}
 }
 
-func VerifHarness_C02_sqlite_col()   { verifC02(0, false) }
-func VerifHarness_C02_sqlite_idx()   { verifC02(1, false) }
-func VerifHarness_C02_sqlite_rest()  { verifC02(2, false) }
-func VerifHarness_C02_sqlite_pairs() { verifC02(3, false) }
-func VerifHarness_C02_sqlite_skip()  { verifC02(4, true) }
+func VerifHarness_C02_sqlite_col()     { verifC02(0, false) }
+func VerifHarness_C02_sqlite_idx()     { verifC02(1, false) }
+func VerifHarness_C02_sqlite_rest()    { verifC02(2, false) }
+func VerifHarness_C02_sqlite_pairs()   { verifC02(3, false) }
+func VerifHarness_C02_sqlite_idxattr() { verifC02(5, false) }
+func VerifHarness_C02_sqlite_skip()    { verifC02(4, true) }
